@@ -778,6 +778,9 @@ func finish(prop string, tier, seed int, partial bool, results []HarnessResult, 
 					if ref.viol.Kind == "unguarded" {
 						reproduced = o.Outcome == "race"
 					}
+					if ref.viol.Kind == "work" {
+						reproduced = o.Outcome == "assert" && o.Msg == ref.viol.Msg
+					}
 					d := replayDoc{Tier: tier, Property: prop, Harness: ref.res.Name, Kind: ref.viol.Kind, Msg: ref.viol.Msg, Where: ref.viol.Where, Vector: ref.viol.Vector, Native: o.Outcome + ": " + o.Msg}
 					if ref.knwn {
 						what := ref.viol.Msg
